@@ -45,7 +45,7 @@ ANCHORS = {
 }
 REQUIRED_ANCHORS = ['type_blocks.TypeBlocks._slice_blocks', 'type_blocks.TypeBlocks._key_to_block_slices',
                     'type_blocks.TypeBlocks._drop_blocks', 'type_blocks.TypeBlocks._astype_blocks', 'type_blocks.TypeBlocks._shift_blocks',
-                    'type_blocks.TypeBlocks._blocks_to_array', 'type_blocks.TypeBlocks.ufunc_axis_skipna']
+                    'type_blocks.TypeBlocks._blocks_to_array']
 
 _DTYPES = ['bool', 'int64', 'float64', '<U5', 'object', 'M8[D]', 'int8', 'uint8', 'float32', 'complex128', '<U1']
 _MAX_LAYOUTS = 40
@@ -497,7 +497,10 @@ CATALOGUE = {
     'rename': (_d_none, lambda f, a: f.rename('renamed')),
     'sum_of_iter_array_apply': (_d_axis, lambda f, a: f.iter_array(axis=a['axis']).apply(len)),
 }
-OPS = sorted(CATALOGUE)
+# axis reductions are left out of the sampled operations: the row-dtype out buffer of TypeBlocks.ufunc_axis_skipna makes many of them
+# layout dependent by recorded mechanisms, which only C15's reference model can tell apart (C15 runs every reduction on every
+# layout and keys each mechanism separately); a catch-all finding here would hide new layout dependence instead of reporting it
+OPS = sorted(n for n in CATALOGUE if n != 'reduce')
 
 
 def _to_text(f):
@@ -516,8 +519,6 @@ def probes(ctx):
         {'spec': S([0, 1, 2], ['a', 'b'], 'auto', 'str', ['int64', 'int64'], [[1, 2], [3, 4], [5, 6]]), 'layout_seed': 1,
          'ops': [('bloc', {'mask': [[True, True], [False, True], [True, False]]})]},
         {'spec': S([0, 1], ['a', 'b'], 'auto', 'str', ['float64', 'float64'], [[nan, 1.0], [2.0, 3.0]]), 'layout_seed': 1, 'ops': [('fillna', {'v': 'x'})]},
-        {'spec': S([0, 1], ['a', 'b'], 'auto', 'str', ['uint8', 'uint8'], [[250, 3], [250, 3]]), 'layout_seed': 1,
-         'ops': [('reduce', {'fn': 'sum', 'axis': 0, 'skipna': True})]},
         {'spec': S([-19, -11], [54, 22], 'negint', 'int', ['int8', 'int8'], [[-7, 5], [-7, 1]]), 'layout_seed': 1,
          'ops': [('reindex', {'rows': [999], 'cols': [54, 22], 'fill': 0})]},
         {'spec': S(['k3'], [11, 28, 13, 52], 'str', 'int', ['bool', 'bool', 'float32', 'bool'], [[True, True, 1024.0, True]]), 'layout_seed': 1,
